@@ -187,3 +187,14 @@ Qed.
 (* non-vacuity: PCTV's tables (lead-in 1664, -6656, 832; lead-out 1664, -100000), a frame of its encoder *)
 Example serial_runs_example : data_B 20 (-832) 832 [-832; 1664; -2496; 832] = Ok [-832; 832; 832; -832; -832; -832; 832].
 Proof. vm_compute. reflexivity. Qed.
+
+(* non-vacuity at the level of the whole branch: PCTV's tables, the frame encode(device=0xA5, function=0x3C) emits - the last
+   lead-in element (832) arrives merged with the first data bits, the first lead-out element (1664) with the last *)
+Example pctv_frame_parses :
+  let frame := [1664; -6656; 1664; -832; 832; -1664; 832; -832; 832; -1664; 3328; -1664; 1664; -100000] in
+  match parseB 20 [1664; -6656; 832] [1664; -100000] (-832) 832 frame with
+  | Ok p => p_bits p = [true; false; true; false; false; true; false; true; false; false; true; true; true; true; false; false]
+            /\ p_norm p = frame
+  | _ => False
+  end.
+Proof. vm_compute. split; reflexivity. Qed.
